@@ -117,6 +117,8 @@ def validate(res, rng, names, n_per_fun):
                     val = thunk()
                 except AssertionError:
                     val = 'assert'
+                except ZeroDivisionError:
+                    val = 'assert'
             if isinstance(val, np.ndarray):
                 val = val.item() if val.size == 1 else val
             lines.append('fm %s %s %s' % (name, S.encode(), ','.join(q2s(a) for a in args)))
